@@ -24,7 +24,7 @@ class GenError(Exception):
 DROP_ATTRS = ('non_exhaustive', 'derive', 'serde', 'allow', 'inline', 'repr', 'unsafe(no_mangle)', 'no_mangle', 'must_use',
               'cfg_attr', 'doc', 'wasm_bindgen', 'deprecated', 'default')
 HEADER_KW = ('requires', 'ensures', 'decreases', 'returns', 'no_unwind', 'opens_invariants', 'recommends')
-CLAUSE_KW = HEADER_KW + ('attr', 'loop', 'forlabel', 'after', 'before', 'opt', 'replace', 'outline', 'note', 'entry', 'loopbefore', 'loophead', 'looptail', 'loopend')
+CLAUSE_KW = HEADER_KW + ('closure', 'attr', 'loop', 'forlabel', 'after', 'before', 'opt', 'replace', 'outline', 'note', 'entry', 'loopbefore', 'loophead', 'looptail', 'loopend')
 
 
 @dataclass
@@ -358,6 +358,43 @@ class Unit:
                 else:
                     self.manual.append(entry); cnt('manual-replace')
                 rec.manual.append(entry)
+
+        # closure contracts: the closure HEADER `|x|` is replaced by an annotated header `|x: T| -> (r: U) ensures ..`, the closure body
+        # (real code, untouched) is wrapped in braces as the annotated form requires
+        for c in clauses:
+            if c[0] == 'closure':
+                mm = re.match(r'`(.*?)`(?:#(\d+))?\s*=>\s*`(.*?)`\s*$', c[1], re.S)
+                if not mm:
+                    raise GenError('%s:%d bad closure directive' % (tplpath, c[2]))
+                old, ordn, new = mm.group(1), mm.group(2), mm.group(3)
+                hits = list(flex_regex(old).finditer(verbatim))
+                if ordn is not None:
+                    hits = hits[int(ordn):int(ordn) + 1]
+                if len(hits) != 1:
+                    self.hints_dropped.append('%s :: %s: closure anchor `%s` matches %d times' % (rel, selector, old, len(hits)))
+                    continue
+                h = hits[0]
+                hend = s_off + h.end()
+                k = item.start
+                while k < item.end and toks[k].start < hend:
+                    k += 1
+                endk = None
+                while k < item.end:
+                    t = toks[k]
+                    if t.text in ('(', '[', '{') and k in src.br:
+                        k = src.br[k] + 1
+                        continue
+                    if t.text in (',', ')', ']', '}', ';'):
+                        endk = k
+                        break
+                    k += 1
+                if endk is None:
+                    self.hints_dropped.append('%s :: %s: closure `%s`: end of body not found' % (rel, selector, old))
+                    continue
+                edits.append(Edit(s_off + h.start(), hend, new + ' {', ('spec', tplpath, c[2]), prio=5))
+                edits.append(Edit(toks[endk].start, toks[endk].start, ' }', ('spec', tplpath, c[2]), prio=-5))
+                rec.n_hints += 1
+                cnt('closure-contract')
 
         for k in range(item.start, item.end):
             t = toks[k]
